@@ -194,7 +194,7 @@ def boundary_trees(tier):
 def word_sweep():
     """every usable dictionary word as tag, attribute key, attribute value and (as bytes) content"""
     for w in WORDS:
-        yield {"t": w, "a": [[w, w], ["k", w]], "c": [{"t": "c", "a": [[w, "v"]], "c": {"hex": w.encode("latin-1").hex()}}]}
+        yield {"t": w, "a": [[w, w], ["k", w], ["j", w + "@s.whatsapp.net"], ["g", "1234-5678@" + w]], "c": [{"t": "c", "a": [[w, "v"]], "c": {"hex": w.encode("latin-1").hex()}}]}
 
 
 def packed_sweep():
